@@ -48,6 +48,7 @@ def main(argv):
     nvals = 4 if a.tier == "quick" else 10
     for i, d in enumerate(be.descs):
         types = d["types"]
+        all_seeds, roots = {}, []
         for T in be.types(i):
             decl = types.decls[T]
             chain = types.parent_chain(decl)
@@ -102,9 +103,12 @@ def main(argv):
                     run.violation("impl", "python parse_all(serialize(v)) of a %s returns a %s" % (T, back.get("type")), rep)
                 else:
                     run.count("roundtrips_ok")
-            if decl.get("parent_id"):
-                continue
-            # parse_all on arbitrary bytes, root types
+            all_seeds[T] = seeds
+            if not decl.get("parent_id"):
+                roots.append((T, tags, seeds))
+        # parse_all on arbitrary bytes, root types (after every type of the description has been serialized, so
+        # that the encodings of the descendants - and near misses of them - are among the inputs)
+        for T, tags, seeds in roots:
             strings = [("empty", b"")]
             for k in run.known:
                 w = k.get("witness", {})
@@ -113,6 +117,16 @@ def main(argv):
             for s in seeds[:3]:
                 strings.append(("valid", s))
                 strings += GV.mutants(be.rng, s, 4 if a.tier == "quick" else 10)
+            for D, dseeds in all_seeds.items():
+                if D == T or root_of(types, D) != T:
+                    continue
+                for s in dseeds[:2]:
+                    strings.append(("descendant", s))
+                    # the head of a descendant's encoding holds the constrained fields: every other value nearby
+                    for pos in range(min(3, len(s))):
+                        for nb in ((s[pos] + 1) % 256, (s[pos] - 1) % 256, s[pos] ^ 0xff, 0):
+                            if nb != s[pos]:
+                                strings.append(("descendant-head", s[:pos] + bytes([nb]) + s[pos + 1:]))
             seen, uniq = set(), []
             for k, s in strings:
                 if s not in seen:
